@@ -80,6 +80,33 @@ pub fn lint_plain(lg: &mut LintGroup, text: &str) -> Vec<Lint> {
     lg.lint(&doc)
 }
 
+/// The dictionary the applications really use: curated + a mutable part (user words, identifiers) with words of
+/// many lengths, among them letters whose case mapping changes their length.
+pub fn user_merged() -> std::sync::Arc<harper_core::MergedDictionary> {
+    use harper_core::{MergedDictionary, MutableDictionary, WordMetadata};
+    static D: std::sync::OnceLock<std::sync::Arc<MergedDictionary>> = std::sync::OnceLock::new();
+    D.get_or_init(|| {
+        let mut user = MutableDictionary::new();
+        let words = ["a", "ab", "zq", "zzyzxq", "shipParcel", "parcel", "istanbul", "İzmir", "naïveté", "straße", "ǅungla", "harperish",
+            "abcdefghijklmnop", "github", "O'Zzyzx", "x86_64", "foo_bar", "ﬁnal"];
+        user.extend_words(words.iter().map(|w| (w.chars().collect::<Vec<char>>(), WordMetadata::default())));
+        let mut m = MergedDictionary::new();
+        m.add_dictionary(FstDictionary::curated());
+        m.add_dictionary(std::sync::Arc::new(user));
+        std::sync::Arc::new(m)
+    }).clone()
+}
+
+pub fn doc_with_dict(text: &str, parser: &dyn Parser, dict: &impl harper_core::Dictionary) -> Document {
+    struct P<'a>(&'a dyn Parser);
+    impl Parser for P<'_> {
+        fn parse(&self, source: &[char]) -> Vec<harper_core::Token> {
+            self.0.parse(source)
+        }
+    }
+    Document::new(text, &P(parser), dict)
+}
+
 pub fn doc_with(text: &str, parser: &dyn Parser) -> Document {
     struct P<'a>(&'a dyn Parser);
     impl Parser for P<'_> {
